@@ -117,9 +117,17 @@ def InvK (s : State) : Prop :=
 
 def InvCore (s : State) : Prop := InvO s ∧ InvB s ∧ InvC s ∧ InvW s ∧ InvK s
 
+/-- no handle designates an unallocated index (needed by `new`: the fresh index is unused) -/
+def InvR (s : State) : Prop :=
+  ∀ t, s.heap.length ≤ t →
+    s.ext t + s.inHeap t + s.pend t = 0 ∧ s.extW t + s.inHeapW t + s.pendW t = 0
+
 /-- the unconditional invariant: holds in every reachable state of every history (states in which
 the machine has stopped with an error are exempt: the process is gone) -/
 def Inv (s : State) : Prop := s.err = none → InvCore s
+
+/-- everything unconditional together -/
+def InvAll (s : State) : Prop := s.err = none → InvCore s ∧ InvR s
 
 /-- the adoption contract: recorded adoptions never exceed the handles actually held -/
 def P (s : State) : Prop :=
